@@ -33,7 +33,8 @@ _c('C02', 'Proved for all inputs over the counters regenerated from charger_stat
 _c('C03', 'Proved on the step model: no instruction diverts a vehicle with passengers (whole state unchanged); pickup = fare credited once + request removed + one event, impossible for a '
           'non-waiting request; cancel removes only a timed-out waiting request with one event. Proved over ALL finite histories of step operations, any controller (C03_ledger_over_histories, macro frame theorem): '
           'replaying the event log gives each request id a status; a request is in the waiting map exactly when its status is Waiting (nothing vanishes without a trace) and every pickup / cancel event was filed for a '
-          'request Waiting at that moment, so after a pickup or cancel of an id there is no further one unless the id is admitted again (C03_closed_once). PARTIAL: drop-off exactly once by the same vehicle over histories.',
+          'request Waiting at that moment, so after a pickup or cancel of an id there is no further one unless the id is admitted again (C03_closed_once); every drop-off event was filed by the vehicle that had picked that request up and had not dropped it yet, so at most one drop-off per pickup and by the same vehicle (C03_dropoffs_over_histories, C03_dropped_once). '
+          'Not a safety property, hence not claimed: that the drop-off eventually happens (the property itself excepts running out of energy and the end of the run).',
    'Coq proof: per-transition lemmas + event-log ledger invariant by induction over operation histories (macro frame theorem); correspondence; ledger monitor', 'No pooling.')
 _c('C05', 'Proved: a charge step derives one (kwh, price = kwh x tariff) and applies it to vehicle, station and event in one update; payment conserved; gained = level rise (kernels regenerated). '
           'Proved over ALL finite histories of step operations, any controller, from a loaded state (C05_books_over_histories, macro frame theorem): each vehicle\'s balance = initial + fares of its pickup events - prices of its '
